@@ -96,9 +96,37 @@ def model_output(name, prog, fuel=FUEL):
     ok, out = common.coq_eval(name, "\n".join(v) + "\n", timeout=300)
     return out[-3000:]
 
+def known_crash_key(panic_text):
+    """call-site key of a compiler crash, for matching open known findings"""
+    if panic_text and "rega.c:597" in panic_text:
+        return "crash:qbe-rega-597"
+    return None
+
+def probe_known(run, work):
+    """replay every open known finding of this property: still failing -> KNOWN-FINDING (via run.violation key match)"""
+    for k in run.known:
+        rp = k.get("replay") or {}
+        if k.get("status") == "open" and rp.get("crash_site") and "program" in rp:
+            r = common.compile_and_run(rp["program"], work, "known_" + k["id"].replace("-", "_"))
+            run.case(rp["program"], True)
+            if rp["crash_site"] in (r.get("cerr", "") + r.get("cout", "")):
+                run.violation(k["key"], k["what"], {"program": rp["program"], "compiler_output": (r.get("cerr", ""))[-600:]})
+            else:
+                print("NOTE: known finding %s no longer reproduces (move it to fixed)" % k["id"])
+            continue
+        if k.get("status") != "open" or "program" not in rp or "expected_stdout" not in rp:
+            continue
+        r = common.compile_and_run(rp["program"], work, "known_" + k["id"].replace("-", "_"))
+        run.case(rp["program"], True)
+        if not (r.get("accepted") and r.get("rc") == 0 and r.get("out") == rp["expected_stdout"]):
+            run.violation(k["key"], k["what"], {"program": rp["program"], "stdout": r.get("out"), "expected": rp["expected_stdout"]})
+        else:
+            print("NOTE: known finding %s no longer reproduces (move it to fixed)" % k["id"])
+
 def main(run):
     work = Work()
     quick = run.tier == "quick"
+    probe_known(run, work)
     n = 160 if quick else 3000
     ok = run.proof("Props/C01.v")
     progs, feats = gen_programs(run, n, 30 if quick else 60, 3 if quick else 5, False)
@@ -124,7 +152,8 @@ def main(run):
             raise RuntimeError("generator/model inconsistency (%s) on program:\n%s" % (mv, src))
         key = "prog:" + hashlib.sha256(src.encode()).hexdigest()[:16]
         if r["panic"]:
-            run.violation(key, "compiler crashed on a reference-accepted core program", {"program": src, "panic": r["panic"][:2000]})
+            run.violation(known_crash_key(r["panic"]) or key, "compiler crashed on a reference-accepted core program",
+                          {"program": src, "panic": r["panic"][:2000]})
         elif not r["accepted"]:
             run.violation(key, "reference-accepted core program rejected by the compiler", {"program": src, "diagnostics": r["diag"][:2000]})
         elif r.get("rc") != 0:
